@@ -9,7 +9,8 @@ PROP = "C12"
 SCHEMES = ["http://", "https://", "HTTP://", "", "//", "ftp://"]
 AUTHS = ["", "u@", "u:p@", ":p@", "u:p:q@", "u:@", "@"]
 HOSTS = ["a.com", "A.CoM", "b.a.co.uk", "www.B.A.Co.Uk", "1.2.3.4", "[::1]", "[2001:db8::1]", "localhost", "intranet",
-         "xn--tlrama-bvab.fr", "télérama.fr", "a.com.", "a.notatld", "kawasaki.jp", "x.city.kawasaki.jp"]
+         "xn--tlrama-bvab.fr", "télérama.fr", "a.com.", "a.notatld", "kawasaki.jp", "x.city.kawasaki.jp", "co.uk", "fr", "github.io",
+         "zq.ck"]
 PORTS = ["", ":80", ":8080", ":"]
 PATHS = ["", "/", "/a", "/a/", "/a/b", "//", "/a//b", "/a:b", "/a@b", "/a/..", "/s:x", "/a/b/c/"]
 QUERIES = ["", "?", "?k=v", "?k=v&l=w", "?a:b@c", "?a?b", "?k=/x", "?q:x"]
